@@ -79,6 +79,9 @@ SPECS = {
             {"kind": "raise_test", "file": EXPLEVY, "py": "ExponentialOfLevyModel.__init__", "coq": "exp_omega_raises",
              "args": [("finite1", "bool"), ("z_re", "R"), ("z_im", "R")], "ret": "bool",
              "subst": {"np.isfinite(exponent_at_minus_i)": "finite1", "exponent_at_minus_i.imag": "z_im", "exponent_at_minus_i.real": "z_re"}},
+            # HEM: beyond its pole the closed-form exponent is finite and REAL, so the generic guard cannot see eta1 <= 1; the class has its own
+            {"kind": "raise_test", "file": "rpylib/model/levymodel/mixed/hem.py", "py": "ExponentialOfHEMModel.__init__", "coq": "hem_exp_raises",
+             "args": [("eta1", "R")], "ret": "bool", "attrs": {"parameters.eta1": "eta1"}},
             {"kind": "assign_rhs", "file": EXPLEVY, "py": "ExponentialOfLevyModel.__init__", "target": "self.omega", "coq": "exp_omega",
              "args": [("z_re", "R")], "ret": "R", "subst": {"exponent_at_minus_i.real": "z_re"}},
             {"kind": "assign_rhs", "file": EXPLEVY, "py": "ExponentialOfLevyModel.log_characteristic_function", "target": "drift",
